@@ -225,3 +225,6 @@ Theorem C01_tdevice_line_integral : forall n b cb q (x y p : list R), length x =
   is_RInt (fun t => dot (leaf_deriv (Build_leafdev n b cb (KT q)) (seg x y t) p) (vsub y x)) 0 1
           (leaf_cost (Build_leafdev n b cb (KT q)) y p - leaf_cost (Build_leafdev n b cb (KT q)) x p).
 Proof. exact tdevice_line_integral. Qed.
+Theorem C01_source_gdevice_deriv : forall n g (s p : list R), length s = n -> length p = n ->
+  GDevice_deriv (A:=R) n g s p = gdev_deriv g s p.
+Proof. exact gen_gdevice_deriv. Qed.
